@@ -689,7 +689,7 @@ func (self *Analyzer) assignExpression(node pAst.AssignExpression) ast.AnalyzedA
 		resultType = ast.NewNeverType()
 	}
 
-	if err := self.TypeCheck(rhs.Type(), lhs.Type(), TypeCheckOptions{}); err != nil {
+	if err := self.TypeCheck(rhs.Type(), lhs.Type(), TypeCheckOptions{AllowFunctionTypes: true}); err != nil {
 		self.diagnostics = append(self.diagnostics, err.GotDiagnostic)
 		if err.ExpectedDiagnostic != nil {
 			self.diagnostics = append(self.diagnostics, *err.ExpectedDiagnostic)
